@@ -61,6 +61,7 @@ type FnCtx struct {
 	quiet         int // >0: suppress obligations (spec-level calls)
 	curPos        token.Pos
 	writtenNames  map[string]bool // all heap names written in this function (for frame check)
+	conformIface  bool      // conformance job: fc.con is an interface method's contract, `self` is the receiver
 	conformImpl   *Contract // conformance job: the implementation's contract (fc.con is the interface method's contract)
 	prefixOverride string
 	curBinds      []Val // captured values of the closure being called by contract
